@@ -11,7 +11,7 @@ pub open spec fn n_parents_spec(d: DiffType) -> usize {
     match d {
         DiffType::Unified => 1usize,
         DiffType::Combined(MergeParents::Number(n), _) => n,
-        DiffType::Combined(MergeParents::Prefix(p), _) => encode_utf8(p@).len() as usize,
+        DiffType::Combined(MergeParents::Prefix(_, n), _) => n,
         DiffType::Combined(MergeParents::Unknown, _) => 0usize,
     }
 }
